@@ -93,6 +93,16 @@ class Check(PropertyCheck):
                     if a.shape != b.shape or not np.array_equal(a, b):
                         res.append(("frame-content", f"frame {k} of {len(history)} is not the chart of the first {k} dispatched operations "
                                     f"(shapes {a.shape} / {b.shape})"))
+                # a second, SHORTER history written through the same frames directory (kept: remove_frames=False): its GIF has its own
+                # frames only, nothing of the earlier, longer one
+                if seed % 2 == 1 and len(history) >= 4:
+                    short = history[: len(history) // 2]
+                    create_gantt_chart_gif(inst, gif_path=os.path.join(tmp, "y.gif"), frames_dir=os.path.join(tmp, "f"),
+                                           remove_frames=False, schedule_history=short)
+                    n_short = len(imageio.mimread(os.path.join(tmp, "y.gif"), memtest=False))
+                    if n_short != len(short):
+                        res.append(("stale-frames", f"a history of {len(short)} operations written through the frames directory of an earlier "
+                                    f"history of {len(history)} gives a GIF of {n_short} frames"))
                 # the video of the same history, written by the real writer and read back: one frame per dispatched operation
                 if seed % 2 == 0:
                     from job_shop_lib.visualization import create_gantt_chart_video
@@ -147,6 +157,9 @@ class Check(PropertyCheck):
 
     def generate(self, rng, n, tier):
         for i in range(n):
+            if i == 5:
+                yield Scenario(["new", "mark mergedframes 0"], {"kind": "mergedframes", "count": 1})
+                continue
             if i in ((7,) if tier == "quick" else (7, 47, 87, 127)):
                 yield Scenario(["new", f"mark realgif {rng.randint(0, 10**6)}"], {"kind": "realgif", "count": 1})
                 continue
@@ -306,6 +319,34 @@ class Check(PropertyCheck):
         res = []
         if line.startswith("mark realgif"):
             return self.real_gif_oracle(int(line.split()[2]))
+        if line.startswith("mark mergedframes"):
+            # zero-duration operations draw no visible bar: consecutive frames are the same picture, and the GIF writer (Pillow, through
+            # imageio) merges identical consecutive frames - the GIF has fewer frames than the history has operations (a recorded finding)
+            import os
+            import shutil
+            import tempfile
+            import warnings
+            import imageio
+            import jsl as _jsl
+            from job_shop_lib.visualization import create_gantt_chart_gif
+            jobs_ = [[_jsl.Operation(0, 3), _jsl.Operation(1, 0), _jsl.Operation(0, 0)], [_jsl.Operation(1, 2), _jsl.Operation(0, 0)]]
+            inst_ = _jsl.JobShopInstance(jobs_, name="z")
+            d_ = _jsl.Dispatcher(inst_)
+            h_ = _jsl.HistoryObserver(d_)
+            for op_ in [jobs_[0][0], jobs_[1][0], jobs_[0][1], jobs_[1][1], jobs_[0][2]]:
+                d_.dispatch(op_)
+            tmp_ = tempfile.mkdtemp(prefix="verif_merged_")
+            try:
+                with warnings.catch_warnings():
+                    warnings.simplefilter("ignore")
+                    create_gantt_chart_gif(inst_, os.path.join(tmp_, "z.gif"), schedule_history=list(h_.history))
+                    n_ = len(imageio.mimread(os.path.join(tmp_, "z.gif"), memtest=False))
+            finally:
+                shutil.rmtree(tmp_, ignore_errors=True)
+            if n_ != 5:
+                return [("gif-identical-frames-merged", f"a history of 5 operations (three of them of duration 0) gives a GIF of {n_} frames: "
+                         "identical consecutive pictures are merged by the GIF writer")]
+            return []
         if line == "bars" and out.startswith("held-chart-changed"):
             res.append(("held-chart", "a chart the caller still held changed when the next chart was drawn: it now shows "
                         + out[len("held-chart-changed "):]))
